@@ -89,7 +89,7 @@ Definition post (ctx : list str) (l : label) (cs : list expr) (acs : list atree)
   | LName s => (if mem s ctx then None else Some true, false, false)
   | LConst _ | LNegConst _ => (Some true, true, false)
   | LSlice false false false => (Some true, true, false)
-  | LOp KStarArg | LOp KStarElt | LOp KList => (Some true, false, false)          (* postStarred, postList: unconditionally *)
+  | LOp KList => (match cs with [] => Some true | _ => None end, false, false)     (* postList: only the empty display is marked by itself *)
   | LKeyword _ => (None, match acs with [v] => a_cst v | _ => false end, false)
   | LOp KCall =>
       match cs, acs with
@@ -165,15 +165,6 @@ Definition final_paths (a : atree) : list path :=
                      end) (eset a).
 
 Definition externals (fclass : list str -> callclass) (ctx : list str) (e : expr) : list path := final_paths (mark fclass ctx e).
-
-(* ---------------------------------------------------------------- known defect of the marking *)
-
-(* postList / postStarred mark the node external whatever its elements are; a parent can then become external although an element
-   mentions a query variable.  `honest a`: no such node in a. *)
-Fixpoint honest (a : atree) : bool :=
-  match a with ANode l ext cst raw cs =>
-    match l with LOp KStarArg | LOp KStarElt | LOp KList => forallb ext_child cs | _ => true end && forallb honest cs
-  end.
 
 (* ---------------------------------------------------------------- create_extractors / extract_vars *)
 
